@@ -9,6 +9,7 @@ package main
 
 import (
 	"fmt"
+	"os"
 
 	"github.com/google/mtail/internal/zzverif/mrun"
 	"github.com/google/mtail/internal/zzverif/vlib"
@@ -47,12 +48,20 @@ func alphabet(c cfg, r *vlib.Rand) []mrun.Op {
 	for i, t := range universe(c.arity) {
 		ls := vlib.Qs(t)
 		ops = append(ops, mrun.Op{K: "get", Ls: ls})
+		ops = append(ops, mrun.Op{K: "remove", Ls: ls})
+		ops = append(ops, mrun.Op{K: "expire", Ls: ls, E: int64(50 + i)})
+		if len(t) != c.arity {
+			continue // the wrong-arity tuple: one operation of each shape is enough
+		}
 		ops = append(ops, mrun.Op{K: "set", Ls: ls, V: val(c.ty, r, 7+i), T: int64(1000 + i)})
 		if c.ty == "int" {
 			ops = append(ops, mrun.Op{K: "inc", Ls: ls, D: int64(1 + i), T: int64(2000 + i)})
 		}
-		ops = append(ops, mrun.Op{K: "remove", Ls: ls})
-		ops = append(ops, mrun.Op{K: "expire", Ls: ls, E: int64(50 + i)})
+		// expiry marks are overwritten, also by zero
+		ops = append(ops, mrun.Op{K: "expire", Ls: ls, E: 0})
+		if i == 0 {
+			ops = append(ops, mrun.Op{K: "expire", Ls: ls, E: 7})
+		}
 	}
 	ops = append(ops, mrun.Op{K: "emit"})
 	return ops
@@ -62,6 +71,16 @@ func main() {
 	a := vlib.ParseArgs()
 	out := vlib.NewOut(a, "From V Require Import Corr.MetricRun.", "mcase", 700)
 	rng := vlib.NewRand(a.Seed)
+	if a.Replay != "" {
+		var v struct {
+			Case map[string]any `json:"case"`
+		}
+		vlib.ReadJSON(a.Replay, &v)
+		if mrun.ReplayRun(v.Case["case"]) {
+			os.Exit(1)
+		}
+		return
+	}
 	run := func(c cfg, ops []mrun.Op, tag string) {
 		ops = append(ops, mrun.Op{K: "emit"})
 		rc, r := mrun.Execute(c.arity, c.ty, c.kind, ops)
@@ -125,6 +144,9 @@ func main() {
 				if o.K == "set" {
 					o.V = val(c.ty, rng, rng.Intn(1000))
 					o.T = int64(1 + rng.Intn(1<<30))
+				}
+				if o.K == "expire" {
+					o.E = vlib.Pick(rng, []int64{0, -5, 1, int64(1 + rng.Intn(1000)), 1 << 40})
 				}
 				if o.K == "inc" {
 					o.D = int64(rng.Intn(9)) - 2
